@@ -30,6 +30,7 @@ type SpecEnv struct {
 	extSig         *types.Signature
 	typeAlias      map[string]types.Type
 	topOld         bool // old(e): parameters denote their entry values
+	iterSnap       map[int]*State // iter(K, e): state at the start of the current iteration of loop K
 	pol            int  // +1: positive position of a goal (universal quantifiers are skolemised), -1 negative, 0 off
 }
 
@@ -41,6 +42,7 @@ func (ex *Exec) specEnvFor(st *State, fi *FuncInfo) *SpecEnv {
 	}
 	if st.frame != nil {
 		env.tsub = st.frame.tsub
+		env.iterSnap = st.frame.iterSnap
 	}
 	if st.frame != nil && st.frame.fi == ex.top && st.frame.closure == nil {
 		env.topOld = true
@@ -555,14 +557,14 @@ func (env *SpecEnv) call(x *SCall) Val {
 				}
 				var snap *State
 				ord, _ := strconv.Atoi(lit.V)
-				if env.frame != nil {
-					snap = env.frame.iterSnap[ord]
-				}
+				snap = env.iterSnap[ord]
 				if snap == nil {
 					env.fail("iter(%d, ...): not inside loop %d", ord, ord)
 				}
 				n := env.with(snap)
-				n.frame = snap.frame
+				if env.frame != nil {
+					n.frame = snap.frame
+				}
 				return n.eval(x.Args[1])
 			case "zeroof":
 				a, ok := x.Args[0].(*SStr)
